@@ -112,6 +112,38 @@ func newEnvParty(kt kmsapi.KeyType) *envParty {
 	return p
 }
 
+// a second key agreement key of the same type in the party's own KMS (created once per party): its did:key id
+var envAltKIDs = map[*envParty]string{}
+
+func envAltKID(p *envParty) string {
+	if v, ok := envAltKIDs[p]; ok {
+		return v
+	}
+	if p.pubKey == nil {
+		envAltKIDs[p] = ""
+		return ""
+	}
+	_, kt, err0 := p.kms.ExportPubKeyBytes(p.kid)
+	if err0 != nil {
+		kt = ""
+	}
+	if kt == "" {
+		envAltKIDs[p] = ""
+		return ""
+	}
+	_, pub, err := p.kms.CreateAndExportPubKeyBytes(kt)
+	if err != nil {
+		envAltKIDs[p] = ""
+		return ""
+	}
+	dk, err := kmsdidkey.BuildDIDKeyByKeyType(pub, kt)
+	if err != nil {
+		dk = ""
+	}
+	envAltKIDs[p] = dk
+	return dk
+}
+
 // party pool per key type (key generation is the expensive part); the pool is process wide
 var envPool = map[string][]*envParty{}
 
@@ -375,6 +407,9 @@ func c01Run(input string) string {
 		if mut == "forge:skid" {
 			// the outsider builds a fresh ECDH-ES (anoncrypt) JWE for recipient 1 and names the SENDER's key in `skid`
 			m, applied = envForgeSkid(c, parties)
+			changed = true
+		} else if mut == "forge:mallory" {
+			m, applied = envForgeMallory(c, parties)
 			changed = true
 		} else if strings.HasPrefix(mut, "forge:") {
 			m, applied = envForgeHand(c, parties, strings.TrimPrefix(mut, "forge:"))
@@ -711,6 +746,24 @@ func envMutate(env, donor []byte, mut string, parties []*envParty) ([]byte, bool
 		}
 		obj["recipients"] = nr
 		return reserialize(), true, false
+	case "altkid":
+		// a single-recipient envelope re-serialised as flattened JSON with an UNPROTECTED per-recipient header that names
+		// ANOTHER key the recipient holds: payload and sender unchanged - the recipient key must not change either
+		if _, isLegacy := legacyProt(); isLegacy || obj["recipients"] != nil || obj["encrypted_key"] == nil || len(parties) < 2 ||
+			parties[1].pubKey == nil {
+			return nil, false, false
+		}
+		alt := envAltKID(parties[1])
+		if alt == "" {
+			return nil, false, false
+		}
+		o2 := map[string]interface{}{}
+		for k, v := range obj {
+			o2[k] = v
+		}
+		o2["header"] = map[string]interface{}{"kid": alt}
+		b, _ := json.Marshal(o2)
+		return b, true, true
 	case "reser":
 		// compact <-> flattened JSON with the same field values
 		if compact {
@@ -803,7 +856,7 @@ func c02Gen(r *Rng, tier string) []string {
 				en = r.Pick([]string{"xc", "gcm"})
 			}
 			cfg = fmt.Sprintf("%s,%s,%s,%d,%s,%s", kd, kt, en, 2+r.N(2), r.Pick([]string{"j", "b40"}), r.Pick([]string{"dk", "dd"}))
-			mut = r.Pick([]string{"forge:apu", "forge:apu+skid", "forge:skid", "corecip", "corecip"})
+			mut = r.Pick([]string{"forge:apu", "forge:apu+skid", "forge:skid", "corecip", "corecip", "forge:mallory", "forge:mallory"})
 		case c < 9:
 			mut = fmt.Sprintf("flip:%s:999", r.Pick(fields)) // last character: base64 trailing bits
 		case c < 10:
@@ -820,7 +873,17 @@ func c02Gen(r *Rng, tier string) []string {
 			mut = fmt.Sprintf("duprec:%d", r.N(3))
 		case c < 19:
 			mut = []string{"swaprec", "reser", "forge:skid", "forge:skid", "forge:apu", "forge:apu+skid", "forge:apu+iss",
-				"corecip", "corecip"}[r.N(9)]
+				"corecip", "corecip", "forge:mallory", "altkid", "altkid"}[r.N(12)]
+			if mut == "altkid" || mut == "forge:mallory" {
+				// single recipient (altkid), authcrypt (mallory), all key types and content encryptions
+				kd := r.Pick([]string{"aj", "aj", "nj"})
+				en := r.Pick([]string{"xc", "c128", "c512"}) // (the authcrypt packer refuses A256GCM)
+				if kd == "nj" {
+					en = r.Pick([]string{"xc", "gcm"})
+				}
+				cfg = fmt.Sprintf("%s,%s,%s,1,%s,%s", kd, r.Pick([]string{"x25519", "p256", "p384", "p521"}), en,
+					r.Pick([]string{"j", "b40"}), r.Pick([]string{"dk", "dk", "dd"}))
+			}
 		default:
 			mut = "unprot:" + r.Pick([]string{"skid", "kid", "alg", "apu"}) + ":@other"
 		}
